@@ -702,7 +702,8 @@ fn build_cms(d: &Value) -> Built {
     Built { der: seq(&[oid(ct), ctx_explicit(0, &seq(&sd))]), sigs }
 }
 
-/// byte regions [lo, hi) of the blob: signature values, and modulus / public exponent of the embedded certificates' keys
+/// byte regions [lo, hi) of the blob: signature values ("sig"), modulus / public exponent of the embedded RSA keys that
+/// made one of the signature values ("mod", "exp") and of the other embedded keys ("mod_other", "exp_other")
 fn blob_regions(d: &Value, b: &Built) -> Value {
     let mut r = serde_json::Map::new();
     let mut sig = vec![];
@@ -712,24 +713,32 @@ fn blob_regions(d: &Value, b: &Built) -> Value {
         }
     }
     r.insert("sig".into(), json!(sig));
-    let mut modulus = vec![];
-    let mut exp = vec![];
     let empty = vec![];
+    let signing: Vec<u64> = d["signers"].as_array().unwrap_or(&empty).iter().filter_map(|s| s["by"].as_u64()).collect();
+    let (mut modulus, mut exp, mut modulus_o, mut exp_o) = (vec![], vec![], vec![], vec![]);
     for c in d["certs"].as_array().unwrap_or(&empty) {
         if c["alg"].as_str().unwrap_or("rsa") != "rsa" {
             continue;
         }
-        let k = key(c["key"].as_u64().unwrap());
+        let kid = c["key"].as_u64().unwrap();
+        let k = key(kid);
         let pk = k.pkcs1_public();
         if let Some(p) = find_sub(&b.der, &pk) {
             let m = p + find_sub(&pk, &k.n).unwrap();
-            modulus.push(json!([m, m + k.n.len()]));
             let e = p + pk.len() - k.e.len();
-            exp.push(json!([e, e + k.e.len()]));
+            if signing.contains(&kid) {
+                modulus.push(json!([m, m + k.n.len()]));
+                exp.push(json!([e, e + k.e.len()]));
+            } else {
+                modulus_o.push(json!([m, m + k.n.len()]));
+                exp_o.push(json!([e, e + k.e.len()]));
+            }
         }
     }
     r.insert("mod".into(), json!(modulus));
     r.insert("exp".into(), json!(exp));
+    r.insert("mod_other".into(), json!(modulus_o));
+    r.insert("exp_other".into(), json!(exp_o));
     Value::Object(r)
 }
 
